@@ -1443,6 +1443,10 @@ class NumpyStub:
         return self.m_prod(self.as_arr(x), axis)
 
     def f_cumsum(self, x, axis=None, **k):
+        if isinstance(x, TArr):
+            from . import tarr
+            m = tarr.array_attr(self, x, "cumsum")
+            return (m.f if hasattr(m, "f") else m)(axis, **k)
         return self.m_cumsum(self.as_arr(x), axis)
 
     def f_min(self, x, axis=None, **k):
